@@ -245,9 +245,14 @@ func (m *mappers) ToCharGroup(r comb.Result) (comb.Result, bool) {
 	items := r2.Val.(comb.List)
 
 	charMap := make([]bool, len(parser.RuneClasses["ASCII"].Runes()))
+	var extras []rune // characters beyond the ASCII table
 	for _, r := range items {
 		if chars, ok := r.Bag[bagKeyChars].([]rune); ok {
 			for _, c := range chars {
+				if int(c) >= len(charMap) {
+					extras = append(extras, c)
+					continue
+				}
 				charMap[c] = true
 			}
 		}
@@ -258,6 +263,15 @@ func (m *mappers) ToCharGroup(r comb.Result) (comb.Result, bool) {
 		if (!neg && marked) || (neg && !marked) {
 			alt.Exprs = append(alt.Exprs, &Char{
 				Val: rune(i),
+			})
+		}
+	}
+
+	// A negated group is complemented within ASCII, so characters beyond ASCII only matter when not negated.
+	if !neg {
+		for _, c := range extras {
+			alt.Exprs = append(alt.Exprs, &Char{
+				Val: c,
 			})
 		}
 	}
